@@ -142,6 +142,36 @@ fn inner(c: &TimeoutCase) -> Result<CaseReport, Stop> {
             }
             (first, el)
         }
+        2 if c.again == 1 => {
+            // the other way a connect ends without a stream: nobody listens on the port (refused at once)
+            opname = "TcpStream::connect";
+            let (l, port) = libc_tcp_listener(1)?;
+            drop(l);
+            let addr = loopback(port);
+            sc::verif::clear_plan();
+            sc::verif::log_begin();
+            let r = no_panic(opname, || TcpStream::connect(&addr).map(|_s| true));
+            let log = sc::verif::log_end();
+            no_double_close(opname, &log)?;
+            sc::verif::log_begin();
+            let r2 = no_panic("TcpStream::connect_with_timeout", || TcpStream::connect_with_timeout(&addr, d).map(|_s| true));
+            let log = sc::verif::log_end();
+            no_double_close("TcpStream::connect_with_timeout", &log)?;
+            match (r?, r2?) {
+                (Err(e), Err(e2)) if ek(&e) == EK::Os(libc::ECONNREFUSED) && ek(&e2) == EK::Os(libc::ECONNREFUSED) => {
+                    rep.nontrivial = true;
+                    rep.class("connect-refused");
+                    return Ok(rep);
+                }
+                (Ok(_), _) | (_, Ok(_)) => return Err(Stop::Inconclusive("somebody listens on the port that was just released".into())),
+                (Err(e), Err(e2)) => {
+                    if is_resource(&ek(&e)) || is_resource(&ek(&e2)) {
+                        return Err(Stop::Inconclusive(format!("{opname}: {e} / {e2}")));
+                    }
+                    return Err(stop_fail(format!("{opname}|{}|nobody listens", ek_name(&ek(&e))), format!("connect to 127.0.0.1:{port} where nobody listens returned {e} (plain) and {e2} (with a limit of {d:?}), expected ECONNREFUSED from both")));
+                }
+            }
+        }
         2 => {
             opname = "TcpStream::connect_with_timeout";
             // silent peer: a listener whose accept queue is full drops further SYNs
@@ -150,10 +180,13 @@ fn inner(c: &TimeoutCase) -> Result<CaseReport, Stop> {
             let _filler2 = libc_tcp_connect(port, true).map_err(|e| Stop::Inconclusive(format!("filler connect: errno {e}")))?;
             let addr = loopback(port);
             let intr = plan_eintr(c.eintr, d);
+            sc::verif::log_begin();
             let t0 = Instant::now();
             let r = no_panic(opname, || TcpStream::connect_with_timeout(&addr, d).map(|_s| true));
             let el = t0.elapsed();
+            let log = sc::verif::log_end();
             drop(intr);
+            no_double_close(opname, &log)?;
             drop(l);
             (r?, el)
         }
